@@ -33,6 +33,14 @@ WEEKDAYS = ['monday', 'tuesday', 'wednesday', 'thursday', 'friday', 'saturday', 
 ABBR = {'mon': 1, 'tues': 2, 'wed': 3, 'thurs': 4, 'fri': 5}
 MONTHS = ['january', 'february', 'march', 'april', 'may', 'june', 'july', 'august', 'september', 'october',
           'november', 'december']
+FINGERPRINTS = {'DateUtils.generate_dates': 'c706d2bf74004202', 'DateUtils.safe_create_from_value': '7911b510a7fb4914',
+                'DateUtils.is_valid_date': 'b009b164560df4ab', 'DateUtils.is_leap_year': '87db2a4ba7fd2f97',
+                'DateUtils.this': '6ae1c138c40e9f11', 'DateUtils.next': 'cf69080177d11982',
+                'BaseDateParser.parse_implicit_date': '4f2120247cbf4084'}
+EXPLANATION = ('Lean theorems about the model of generate_dates / the bare-weekday branch (every reference, no bound) + '
+               'correspondence of that model with the working tree (unit + pipeline) + the property computed '
+               'independently on recognize_datetime output. A tree that follows the repaired variant of generate_dates '
+               '(comparison on dates) is accepted silently.')
 WITNESS_MONTHDAY = (dt.datetime(2020, 5, 10, 14, 0, 0), 5, 10)       # proved in RTV/Props/C09.lean
 WITNESS_FEB29 = (dt.datetime(2020, 2, 29, 14, 0, 0), 2, 29)
 
@@ -122,14 +130,25 @@ def unit_generate_dates(ctx, DateUtils, days):
                     impl.append('%s;%s' % (fmt_dt(f), fmt_dt(p)))
     model = common.driver(lines)
     ctx.count('DateUtils.generate_dates', len(lines))
-    bad = 0
-    for l, a, b in zip(lines, impl, model):
-        if a != b:
-            bad += 1
-            if bad <= 3:
-                ctx.report('correspondence', 'generate_dates', '%s: implementation %s, model %s' % (l, a, b),
-                           failing_input={'op': l, 'implementation': a, 'model': b})
+    diff = [i for i, (a, b) in enumerate(zip(impl, model)) if a != b]
+    if diff:
+        # does the tree follow the repaired variant (compare with the reference's date)?  DESIGN 2.5
+        fixed = common.driver([lines[i].replace('du.gen\t', 'du.genfixed\t', 1) for i in diff])
+        rest = [i for i, f in zip(diff, fixed) if impl[i] != f]
+        if not rest:
+            ctx.extra['generate_dates_variant'] = 'repaired (compares dates)'
+        for i in rest[:3]:
+            ctx.report('correspondence', 'generate_dates', '%s: implementation %s, model %s' % (lines[i], impl[i], model[i]),
+                       failing_input={'op': lines[i], 'implementation': impl[i], 'model': model[i]})
+    else:
+        ctx.extra['generate_dates_variant'] = 'current (compares midnight with the full reference datetime)'
     ctx.sample({'op': lines[len(lines) // 2], 'implementation': impl[len(impl) // 2]})
+    # the out-of-range witness of feb29_fails_next_to_century, replayed and recorded (1950..2090 is not affected)
+    obs = {}
+    for R in (dt.datetime(2096, 3, 1), dt.datetime(2104, 1, 1), dt.datetime(1896, 12, 31), dt.datetime(1904, 2, 1)):
+        f, p = DateUtils.generate_dates(True, R, R.year, 2, 29)
+        obs[str(R.date())] = {'future': str(f.date()), 'past': str(p.date())}
+    ctx.extra['observation_feb29_next_to_century_outside_1950_2090'] = obs
 
 
 def unit_bare_weekday(ctx, days):
@@ -209,7 +228,8 @@ def pipeline(ctx):
         else:
             mlines.append('du.bare\t%s\t%d' % (ref_fields(R), par % 7))
     answers = common.driver(mlines)
-    for (expr, R, fam, par), res, ans in zip(cases, results, answers):
+    fixed_ans = common.driver([l.replace('du.md\t', 'du.mdfixed\t', 1) if l.startswith('du.md\t') else l for l in mlines])
+    for (expr, R, fam, par), res, ans, fans in zip(cases, results, answers, fixed_ans):
         ctx.count('pipeline:' + fam)
         ent = calcorr.whole_entity(res, expr)
         got = ent[4] if ent else None
@@ -229,8 +249,9 @@ def pipeline(ctx):
                 sig = 'no-year-%s' % fam
             ctx.report('property', sig, '%r at %s: got %r, the property states %r' % (expr, fi['reference'], got, want),
                        failing_input=fi, property_fails=True)
+        elif got != mv and fam == 'monthday' and [got[1]['value'], got[0]['value']] == [pad_date(x) for x in fans.split(';')]:
+            pass        # the tree follows the repaired variant (comparison on dates), which satisfies the property
         elif got != mv:
-            # the tree may follow the repaired variant (comparison on dates): that one satisfies the property
             ctx.report('correspondence', 'pipeline-' + fam, '%r at %s: implementation %r, model %r' % (
                 expr, fi['reference'], got, mv), failing_input=fi)
     ctx.sample({'query': cases[0][0], 'reference': str(cases[0][1]), 'implementation': results[0]})
@@ -245,6 +266,12 @@ def correspond(ctx):
     import recognizers_date_time
     from recognizers_date_time.date_time.utilities import DateUtils
     common.assert_tree_modules(recognizers_date_time)
+    from recognizers_date_time.date_time.base_date import BaseDateParser
+    calcorr.fingerprints(ctx, {'DateUtils.generate_dates': DateUtils.generate_dates,
+                               'DateUtils.safe_create_from_value': DateUtils.safe_create_from_value,
+                               'DateUtils.is_valid_date': DateUtils.is_valid_date, 'DateUtils.is_leap_year': DateUtils.is_leap_year,
+                               'DateUtils.this': DateUtils.this, 'DateUtils.next': DateUtils.next,
+                               'BaseDateParser.parse_implicit_date': BaseDateParser.parse_implicit_date}, FINGERPRINTS)
     calcorr.calendar_unit(ctx, 'c09')
     bdays = calcorr.boundary_days()
     r = ctx.rng('unit')
